@@ -132,7 +132,7 @@ pub fn gen_spec(ch: &mut Ch) -> WorldSpec {
             let p = vec![seg("noise"), format!("{}", if many { i } else { i % 7 }).into_bytes()];
             dgs.push(build_request(1, coap_lite::MessageType::NonConfirmable, i as u16, &[i as u8], &p, &[], None, None, &[]));
         }
-        let mut t = default_transfer(1, vec![], TKind::Raw { datagrams: dgs, gap_ns: (1 + ch.below(20, "noise.gap")) * MS });
+        let mut t = default_transfer(1, vec![], TKind::Raw { datagrams: dgs, gap_ns: if many { (1 + ch.below(20, "noise.gap")) * MS / 10 } else { (1 + ch.below(20, "noise.gap")) * MS } });
         t.tag_kind = TagKind::Noise;
         clients.push(ClientSpec { ep: 900, lanes: vec![LaneSpec { transfers: vec![t], timeout_ms: 2000 }], mid0: 0, tok_seed: 1, net: NetCfg::clean(3), via_proxy: false });
     }
